@@ -14,3 +14,12 @@ chk("C10", RM + " + algebraic identity monitor (x = q*y + r) tying QuoInteger an
 chk("C11", RM + ": integer square/cube roots with exact remainder comparisons",
     "Exploration: Sqrt compared with the exact root rounded half-even once (ties decided exactly), Cbrt checked to lie within one unit by exact cubes and to be exact on perfect cubes; random, perfect-power and constructed hard-case operands. Two known findings (Sqrt hard cases, Cbrt non-convergence at tiny precision) are attributed by class predicates.",
     "Trusted: math/big (Sqrt verified by s^2<=n<(s+1)^2; cube root verified likewise).", "DESIGN.md 4/C11")
+chk("C19", RM + ": decimal text length for NumDigits, reference stripping for Reduce, destination pre-state differential for the count",
+    "Exploration: NumDigits at every bit length 1..130 boundary, at 10^j-1/10^j/10^j+1 for every j up to 6000 (quick) / 15000 (thorough), random values to 40000 bits, both signs and three construction paths; Decimal.Reduce and Context.Reduce on 0..3000 trailing zeros with two destination pre-states.",
+    "Trusted: math/big text conversion.", "DESIGN.md 4/C19")
+chk("C20", "metamorphic (relational) monitor: the same call evaluated under all 8 rounding modes and under operand transformations, results compared with each other",
+    "Exploration without external oracle: bracketing (floor <= all <= ceiling, |down| <= |all| <= |up|), half-mode membership, exactness agreement, floor/ceiling adjacency on the context grid, commutativity, Sub=Add(-y), mirroring, monotonicity of Round along sorted chains, power-of-ten scaling; thorough adds the exhaustive small grid.",
+    "Trusted: only big.Int comparison/next-representable helpers; apd is compared with apd.", "DESIGN.md 4/C20")
+chk("C08", "table-driven reference-model monitor over the exhaustively enumerated special-value grid (all aliasing patterns)",
+    "Exploration, exhaustive over a finite grid: 36 operand classes (NaN/sNaN/Inf/zeros of both signs and several exponents, representative finites) for both operands x 22 Context operations x 8 modes x 3 contexts x 2 trap sets x aliasing patterns; every defined cell compared with a table transcribed from the GDA specification.",
+    "Trusted: the table in internal/props/c08.go (agrees with CPython decimal/libmpdec on all 41008 comparable cells except three documented apd conventions).", "DESIGN.md 4/C08")
